@@ -1,5 +1,6 @@
 import OasisModel.Proto
 import OasisModel.Staking.SharePool
+import OasisModel.Governance.Tally
 /-
 Driver for the share-pool model (mode `share`, executable `om_share`), property C15.
 Every line carries the operation, its inputs and what the Go implementation returned; the model
@@ -12,6 +13,7 @@ implementation's outcome violates the executable C15 clause, checked independent
   sp  dst B TS amount total dst' B' TS'                                                 slashPool
   se  Ba TSa Bd TSd common amount Ba' Bd' common' slashed debondingSlashed              SlashEscrow arithmetic
   com rate total ok com remaining | err <kind>                                           computeCommission
+  gclose yes no abstain total threshold passed|rejected|err                              governance Proposal.CloseProposal
   hnew B TS mine rest                         start a history (one delegator against the rest)
   hdep own a  ok B' TS' shares vBefore vAfter | err <kind>
   hwd  own s  ok B' TS' paid   vBefore vAfter | err <kind>
@@ -128,6 +130,15 @@ def stateless (ws : List String) : Option String :=
       else match m with
         | .ok (c, r) => if c + r != total then some "SPEC commission + remaining ≠ total" else some "ok"
         | _ => some "ok"
+    | _ => none
+  | ["gclose", y, n, a, total, thr, res] =>
+    match nats [y, n, a, total, thr] with
+    | some [y, n, a, total, thr] =>
+      let m := match OasisModel.Governance.closeProposal { yes := y, no := n, abstain := a } total thr with
+        | .ok true => "passed"
+        | .ok false => "rejected"
+        | .error _ => "err"
+      if m != res then some s!"DIVERGE closeProposal model={m} impl={res}" else some "ok"
     | _ => none
   | _ => none
 
